@@ -38,12 +38,12 @@ class Pattern(Leaf):
 
     def _pretty(self, lean=False):
         _ = lean
-        if self.pattern == '.':
-            # `/./` is the symbol of Dot, which, unlike the regex, also matches a newline
-            return "?'.'"
         pat = self.pattern or ""
         # multiline patterns are OK
         pat = trim(pat)
+        if pat == '.':
+            # `/./` is the symbol of Dot, which, unlike the regex, also matches a newline
+            return "?'.'"
         if '/' in pat:
             newpat = pat.replace('"', r'\"')
             regex = f'?"{newpat}"'
